@@ -98,7 +98,9 @@ static void after_thaw (pixman_glyph_cache_t *c)
         long oldest_survivor = -1, newest_victim = -1;
         for (int k = 0; k < nkeys; k++) if (ent[k].live) { if (alive[k]) { if (oldest_survivor < 0 || ent[k].used_hi < oldest_survivor) oldest_survivor = ent[k].used_hi; } else if (ent[k].used > newest_victim) newest_victim = ent[k].used; }
         if (survivors && newest_victim > oldest_survivor) vf_violation ("C17:eviction-not-lru", "thaw evicted an entry used at step %ld but kept one used at step %ld", newest_victim, oldest_survivor);
-        if (survivors != LOW && !(survivors == 0)) vf_violation ("C17:eviction-wrong-count", "thaw left %d entries (from %d); eviction goes down to the low-water mark %d", survivors, live_count, LOW);
+        /* removes_total bounds the tombstones from above: with at most HW of them the table is not dumped, so exactly LOW entries stay
+         * (an eviction needs more than LOW live entries, and it stops at LOW) */
+        if (survivors != LOW) vf_violation ("C17:eviction-wrong-count", "thaw left %d entries (from %d, at most %ld tombstones); eviction goes down to the low-water mark %d and the table is dumped only with more than %d tombstones", survivors, live_count, removes_total, LOW, HW);
     }
     for (int k = 0; k < nkeys; k++) if (ent[k].live && !alive[k]) { drop_entry (&ent[k]); live_count--; removes_total++; }      /* an eviction leaves a tombstone like a removal */
     if (survivors == 0) removes_total = 0;       /* a dumped / emptied table has no tombstones */
